@@ -10,6 +10,13 @@ def jMat (M : Mat) : Json := jArr jRats (matToLists M)
 def substResid (nOutParam : Nat) (ins : List (InputDef Rat)) (R : List (Expr Rat)) : List (Expr Rat) :=
   R.map (Expr.subst (inputSubst nOutParam ins))
 
+/-- `gsSweep` with the iterate materialised after every visit (the closure chain of the definition
+would be re-evaluated exponentially often); same steps, same order -/
+def gsSweepMat (n : Nat) (a : Nat → Nat → Rat) (b : Nat → Rat) (order : List Nat) : Nat → Rat :=
+  let final : Array Rat := order.foldl (fun (arr : Array Rat) i =>
+    ((List.range n).map (gsStep n a b (fun k => arr.getD k 0) i)).toArray) (Array.replicate n 0)
+  fun k => final.getD k 0
+
 def handle (j : Json) : Option Json := do
   let op ← fieldStr? j "op"
   match op with
@@ -35,8 +42,23 @@ def handle (j : Json) : Option Json := do
       let Jf := mkMat nof wrt.length (fun i l => mget X (ofs.getD i 0) (wrt.getD l 0))
       let Jr := mkMat nof wrt.length (fun i l =>
         - (List.range n).foldl (fun acc k => acc + mget Y k i * mget B k (wrt.getD l 0)) 0)
+      -- LinearRunOnce at scalar granularity (C01_runonce_triangular): one pass over the unknowns in
+      -- execution order on A (fwd) / in reverse order on Aᵀ (rev), from the zero vector
+      let order := List.range n
+      let a : Nat → Nat → Rat := fun i jj => mget A i jj
+      let at' : Nat → Nat → Rat := fun i jj => mget A jj i
+      let tri := order.all (fun p => order.all (fun q => !(p < q) || a p q == 0))
+      let diagOk := order.all (fun i => a i i != 0)
+      let fwdEq := (List.range L).all (fun l =>
+        let x := gsSweepMat n a (fun k => mget negB k l) order
+        order.all (fun k => x k == mget X k l))
+      let revEq := (List.range nof).all (fun i =>
+        let y := gsSweepMat n at' (fun k => mget E k i) order.reverse
+        order.all (fun k => y k == mget Y k i))
       pure (jObj [("ok", jBool true), ("resid_zero", jBool residZero), ("J", jMat Jf),
-                  ("fwd_eq_rev", jBool (matEq nof wrt.length Jf Jr))])
+                  ("fwd_eq_rev", jBool (matEq nof wrt.length Jf Jr)),
+                  ("tri", jBool (tri && diagOk)), ("runonce_fwd", jBool fwdEq),
+                  ("runonce_rev", jBool revEq)])
     | _, _ => pure (jObj [("ok", jBool false), ("err", jStr "singular"),
                           ("resid_zero", jBool residZero)])
   | _ => none
